@@ -15,7 +15,8 @@ Case (plain JSON)::
 
 Encoding of data: JSON scalars / lists as themselves, {"$": "dict"|"set"|"tuple"|"deque", "v": [...]},
 {"$": "obj", "id": str, "attrs": {name: value}} (plain attribute holder without methods),
-{"$": "template", "name": str} (Template object of the environment that renders).
+{"$": "template", "name": str} (Template object of the environment that renders),
+{"$": "fn", "kind": "pause"|"raise"|"empty"} (harmless callable: yields to other threads / raises ValueError / returns '').
 
 Oracle, per case:
 
@@ -49,6 +50,7 @@ import copy
 import re
 import sys
 import threading
+import time
 
 from vt import core
 
@@ -68,12 +70,15 @@ RULE = (
     "deques, attribute objects holding containers, container-valued environment and template-level globals; two data "
     "assignments. History: every template >= 3 times in a generated interleaving over 8 sync / 7 async entry points and "
     "both data assignments; autoescape off / on / decided by template name; tojson with and without indent, truncate "
-    "and urlize (policy-reading filters); a quarter of the cases add 8-16 threads x 2-3 repetitions of up to 6 distinct steps. Non-trivial = some template of "
+    "and urlize (policy-reading filters); {% autoescape true|false|FLAG %} blocks around eval-context-sensitive content "
+    "(join, replace, xmlattr, urlize, macro result ~ string) with a yielding data callable and a data callable that raises for "
+    "one of the two data assignments; a quarter of the cases add 8-16 threads x 2-3 repetitions of up to 6 distinct steps. Non-trivial = some template of "
     "the case has an import or include-without-context (module cache), a namespace, or a filter with a container "
     "argument, and is rendered >= 3 times; distinct = distinct serialised case."
 )
 ASSUMPTIONS = [
     "the reference output is the tree's own first render in a fresh environment (differential in time, not a model)",
+    "the data callables PAUSE / BOOM (time.sleep(0) / raise ValueError / return '') modify nothing",
     "templates never call methods of objects that came from the data or from globals (mutation through callables the "
     "data provides is allowed by the property); methods are only called on objects the template created itself "
     "(results of list/sort/reverse|list/unique|list/map|list/select|list/batch/slice/dictsort/items|list/dict(), literals)",
@@ -107,6 +112,24 @@ class Obj:
         return "Obj<%s>" % self.__dict__["_id"]
 
 
+class Fn:
+    """Callable from the data: "pause" gives other threads a chance to run and returns '', "raise" raises ValueError,
+    "empty" returns ''.  None of them touches anything."""
+
+    def __init__(self, kind):
+        self.kind = kind
+
+    def __call__(self):
+        if self.kind == "pause":
+            time.sleep(0)
+        elif self.kind == "raise":
+            raise ValueError("data callable raised")
+        return ""
+
+    def __repr__(self):
+        return "Fn<%s>" % self.kind
+
+
 def dec(x, env):
     if isinstance(x, list):
         return [dec(i, env) for i in x]
@@ -124,6 +147,8 @@ def dec(x, env):
             return Obj(x["id"], {k: dec(v, env) for k, v in x["attrs"].items()})
         if t == "template":
             return env.get_template(x["name"])
+        if t == "fn":
+            return Fn(x["kind"])
         if t is None:
             return {k: dec(v, env) for k, v in x.items()}
         raise core.HarnessError("bad encoding %r" % (x,))
@@ -665,6 +690,8 @@ def _data_strategy():
         "T": ilist.map(lambda v: {"$": "tuple", "v": v}), "Q": ilist.map(lambda v: {"$": "deque", "v": v}),
         "O": st.builds(lambda i, m, nm: {"$": "obj", "id": "o", "attrs": {"items": i, "meta": m, "name": nm}}, ilist, sdict, words),
         "START": ilist, "FILL": ilist, "DFLT": ilist, "DDFLT": sdict, "N": nested, "W": words, "I": ints,
+        "FLAG": st.booleans(), "PAUSE": st.just({"$": "fn", "kind": "pause"}),
+        "BOOM": st.sampled_from(["empty", "raise"]).map(lambda k: {"$": "fn", "kind": k}),
     })
     globs = st.fixed_dictionaries({"GL": ilist, "GD": sdict})
     tglob = st.fixed_dictionaries({"TGV": st.sampled_from(["tgA", "tgB", "tgC"]), "TGL": ilist})
@@ -710,6 +737,17 @@ TYPED = [
     ("container_arg", "{{ %(list)s|tojson }}{{ %(dict)s|tojson(2) }}{{ [%(list)s, I]|tojson }}"),
     ("", "{{ 'aaa bbb ccc ddd'|truncate(9) }}{{ 'aaa bbb ccc ddd'|truncate(9, true, '..', 0) }}{{ W|truncate(3, leeway=1) }}"),
     ("container_arg", "{{ 'http://x.y a@b.c x:z'|urlize(rel='nofollow', target='_blank', extra_schemes=S) }}{{ 'http://x.y x:z'|urlize }}"),
+    ("autoescape_block container_arg", "{%% autoescape true %%}{{ S|join('<') }}{{ PAUSE() }}{{ W|replace('<', '>') }}{{ BOOM() }}{%% endautoescape %%}"
+                                       "{{ S|join('<') }}{{ W|replace('x', '&') }}"),
+    ("autoescape_block container_arg", "{%% autoescape false %%}{{ S|join('<') }}{{ PAUSE() }}{{ BOOM() }}{{ %(dict)s|xmlattr }}{%% endautoescape %%}"
+                                       "{{ S|join('&') }}{{ {'a': W}|xmlattr }}"),
+    ("autoescape_block container_arg", "{%% autoescape FLAG %%}{%% for x in S %%}{{ x }}{{ PAUSE() }}{%% endfor %%}{{ BOOM() }}{{ 'http://x.y/<'|urlize }}"
+                                       "{%% endautoescape %%}{{ S|join('<') }}{{ 'http://x.y/<'|urlize }}"),
+    ("autoescape_block", "{%% macro tg(x) %%}<{{ x }}>{%% endmacro %%}{{ tg(W) ~ '&' }}{%% autoescape true %%}{{ tg(W) + '&' }}{{ PAUSE() }}{{ BOOM() }}"
+                         "{{ S|join('<') }}{%% endautoescape %%}{{ tg(W) + '<' }}{{ [W|safe, '<']|join('&') }}"),
+    ("autoescape_block", "{%% macro tf(x) %%}<{{ x }}>{%% endmacro %%}{%% autoescape false %%}{{ tf(W) ~ '&' }}{{ BOOM() }}{{ PAUSE() }}{{ W|replace('<', '&') }}"
+                         "{%% endautoescape %%}{{ tf(W) + '<' }}{{ [W, '<']|join('>') }}"),
+    ("autoescape_block", "{%% autoescape not FLAG %%}{{ W }}{{ PAUSE() }}{{ [W, '&']|join('<') }}{{ BOOM() }}{%% endautoescape %%}{{ [W, '&']|join('<') }}"),
     ("container_arg", "{{ I in %(list)s }}{{ %(list)s is sameas %(list)s }}{{ %(list)s == %(list)s }}{{ %(list)s is eq(%(list)s) }}"),
     ("container_arg", "{{ %(list)s is iterable }}{{ %(any)s is sequence }}{{ %(any)s is mapping }}{{ %(list)s is in([%(list)s]) }}"),
     ("container_arg", "{{ %(list)s + %(list)s }}"),
@@ -820,8 +858,10 @@ def _strategy(sizes):
         out.append(pattern[pos:].replace("%%", "%"))
         return "".join(out)
 
+    ae_blocks = [tp for tp in TYPED if "autoescape_block" in tp[0]]
+
     def typed_frag(draw):
-        tag, pat = draw(st.sampled_from(TYPED))
+        tag, pat = draw(st.sampled_from(ae_blocks if 40 <= draw(st.integers(0, 99)) < 52 else TYPED))
         return [tag, fill(draw, pat)]
 
     def wild_frag(draw):
@@ -883,6 +923,10 @@ def _strategy(sizes):
         case = {"kind": kind, "async": is_async, "autoescape": draw(st.sampled_from([False, False, True, "fn", True])),
                 "globals": draw(glob_s), "tglobals": {}}
         d1, d2 = draw(data_s), draw(data_s)
+        if draw(st.booleans()):  # one assignment raises inside the autoescape blocks, the other renders them cleanly
+            first = draw(st.booleans())
+            d1["BOOM"] = {"$": "fn", "kind": "raise" if first else "empty"}
+            d2["BOOM"] = {"$": "fn", "kind": "empty" if first else "raise"}
         if kind == "frag":
             nlibs = draw(st.integers(0, 2))
             libs = ["lib%d" % i for i in range(nlibs)]
@@ -974,7 +1018,7 @@ def run_shard(spec, ctx):
 
 FLOORS = {
     "autoescape": 0.15, "autoescape_fn": 0.05, "kind_frag": 0.3, "kind_stmt": 0.08, "kind_tset": 0.08, "async": 0.15, "threads": 0.15, "tag_import": 0.3,
-    "tag_namespace": 0.15, "tag_container_arg": 0.3, "tag_wild": 0.15, "entry_make_module": 0.1, "entry_new_context_shared": 0.1,
+    "tag_namespace": 0.15, "tag_autoescape_block": 0.1, "tag_container_arg": 0.3, "tag_wild": 0.15, "entry_make_module": 0.1, "entry_new_context_shared": 0.1,
     "entry_default_module": 0.1, "entry_generate_async": 0.03, "out_text": 0.5,
 }
 
